@@ -8,6 +8,7 @@ class State:
         self.vars = {}  # name -> (Val, defined) ; defined is True or a z3 Bool
         self.heap = {}  # ref -> heap object (treated as immutable: clone before change)
         self.pc = []  # path condition (list of z3 Bool)
+        self.guards = []  # conditions under which the current sub-expression is evaluated
         self.ghost = {}  # ghost namespace for contracts (name -> Val or z3 FuncDecl)
         self.old = None  # State snapshot at function entry (for old(...))
         self.in_try = []  # stack of sets of exception names currently caught
@@ -18,6 +19,7 @@ class State:
         s.vars = dict(self.vars)
         s.heap = dict(self.heap)
         s.pc = list(self.pc)
+        s.guards = list(self.guards)
         s.ghost = dict(self.ghost)
         s.old = self.old
         s.in_try = list(self.in_try)
@@ -51,7 +53,12 @@ class State:
     def assume(self, c):
         if c is True:
             return
+        if self.guards:
+            c = z3.Implies(z3.And(*self.guards), c)
         self.pc.append(c)
+
+    def full_pc(self):
+        return self.pc + self.guards
 
     def bind(self, name, val, defined=True):
         self.vars[name] = (val, defined)
